@@ -160,7 +160,7 @@ def run_case(case, built=None, keep_obs=False):
                                   if r0.outcome == 'value' else None)
     shared = [r for r in obs.trace if r['k'] == 'manager_shared']
     if shared:
-        findings.append(monitors.F(['C08', 'C07'], 'event_manager_object_shared_by_runs', runs=sorted({str(r['run']) for r in shared})[:4],
+        findings.append(monitors.F(['C08', 'C07', 'C14'], 'event_manager_object_shared_by_runs', runs=sorted({str(r['run']) for r in shared})[:4],
                                    n=len(shared)))
     if getattr(obs, 'meta_obj', None) is not None and obs.meta_obj != obs.meta_before:
         findings.append(monitors.F(['C07', 'C08'], 'caller_meta_mutated', before=sorted(map(str, obs.meta_before)),
